@@ -207,12 +207,16 @@ def check_text(rep, drv, rng, text, delta, fname, points, model=None, extra=None
                                {"kind": "direct", "text": text, "inputs": pt, "delta": delta, "state": s}, key)
                     break
             else:
-                if abs(g) > 1e-300:
+                # the reference g is a float64 evaluation: tan(0.25*sin(pi)) is 3e-17 there and exactly 0 for the implementation;
+                # a g within rounding of 0 (relative to the size of the terms) makes the two updates agree within the tolerance anyway
+                if abs(g) > 1e-9 * (1.0 + S):
                     failing = (f"state {s} gets the Euler update (no linearisation emitted) but g = {g!r} is not zero",
                                {"kind": "direct", "text": text, "inputs": pt, "delta": delta, "state": s})
                     break
-            # the prescribed value
-            want = so.spec_update(x, f, g, dt, delta)
+            # the prescribed value (a state for which no linearisation is emitted because the derivative is identically zero has
+            # g = 0 exactly; the float64 reference may see rounding noise such as sin(pi) there - see above)
+            g_ref = 0.0 if (gname not in loc and abs(g) <= 1e-9 * (1.0 + S)) else g
+            want = so.spec_update(x, f, g_ref, dt, delta)
             got = float(out[i])
             ok = close(got, want, S + abs(x) + abs(want), 1e-8) or (math.isinf(want) and not math.isfinite(got))
             key = None
